@@ -210,6 +210,7 @@ func (c02) ProcOpts() Proc { return Proc{RlimitAS: 4 << 30, MaxStack: 256 << 20}
 func (c02) Cases(tier string, seed int64, kf *KnownFindings) []Case {
 	cs := zooCases(tier, seed)
 	cs = append(cs, Case{Kind: "badutf8", Seed: Mix(seed, 90001), Count: len(badUTF8) * 5, Sub: -1})
+	cs = append(cs, Case{Kind: "bigbin", Count: len(c09bigBin) * 2, Sub: -1})
 	return cs
 }
 
@@ -305,16 +306,54 @@ func (c02) Run(c Case, env *Env) Result {
 		c02badUTF8(c, env, &res)
 		return res
 	}
+	if c.Kind == "bigbin" {
+		// byte arrays around the largest length one chunk header can announce, alone and in a struct
+		lo, hi := subRange(c)
+		for j := lo; j < hi; j++ {
+			n := c09bigBin[j%len(c09bigBin)]
+			var val interface{} = bytes.Repeat([]byte{byte(j + 1)}, n)
+			if j >= len(c09bigBin) {
+				val = &zoo.Scalars{S: "before", Bin: bytes.Repeat([]byte{byte(j + 1)}, n), I32: 7}
+			}
+			env.J(c.Idx, j)
+			cc := c
+			cc.Sub = j
+			res.Evals++
+			res.NT = append(res.NT, Hash64(fmt.Sprintf("bigbin|%d", j)))
+			_, nm := hessian.ExtractTypeNameMap(val)
+			var wire []byte
+			var err error
+			pi, _ := Guard(func() { wire, err = hessian.ToBytes(val, copyNames(nm)) })
+			feats := []string{"big-binary", fmt.Sprintf("len=%d", n)}
+			switch {
+			case pi != nil:
+				env.Viol(&res, Violation{Class: "panic@encode", Features: feats, Detail: pi.Msg, Case: cc})
+			case err != nil:
+				env.Viol(&res, Violation{Class: "enc-error", Features: feats, Detail: err.Error(), Case: cc})
+			default:
+				if cls, d := wireCheck(val, nm, wire, &res); cls != "" {
+					env.Viol(&res, Violation{Class: cls, Features: feats, Detail: fmt.Sprintf("byte array of %d octets: %s", n, d), Case: cc})
+				}
+			}
+		}
+		return res
+	}
 	lo, hi := c.From, zooCount(c)
 	if c.Sub >= 0 {
 		lo, hi = c.Sub, c.Sub+1
 	}
+	var prev interface{} // the value of the previous sub-case: sent FIRST on a two-value stream
 	for j := lo; j < hi; j++ {
 		val, feats, skip := zooSub(c, j, env, "C02")
 		if skip {
 			res.Skipped++
 			continue
 		}
+		if j > 0 && prev == nil && c.Sub >= 0 {
+			prev, _, _ = zooSub(c, j-1, env, "C02") // replay of one sub-case: regenerate its predecessor
+		}
+		first := prev
+		prev = val
 		env.J(c.Idx, j)
 		cc := c
 		cc.Sub = j
@@ -367,6 +406,41 @@ func (c02) Run(c Case, env *Env) Result {
 		}
 		if cls, d := wireCheck(val, nameMap, wire2, nil); cls != "" {
 			viol(cls, "Encoder.WriteObject: "+d)
+		}
+		// two values on ONE stream (Encoder.WriteObject twice): ordinals, class numbers and type
+		// numbers keep counting across the values; the reference decoder reads the stream with one
+		// parser and the second value must still denote val
+		if j%2 == 1 && first != nil {
+			tm2, nm2 := map[string]reflect.Type{}, map[string]string{}
+			if mergeMaps(tm2, nm2, first) && mergeMaps(tm2, nm2, val) {
+				w := &mon.CountingWriter{}
+				var e1, e2 error
+				pi, _ := Guard(func() {
+					enc := hessian.NewEncoder(w, copyNames(nm2))
+					e1 = enc.WriteObject(first)
+					e2 = enc.WriteObject(val)
+				})
+				if pi == nil && e1 == nil && e2 == nil {
+					res.Count("two_value_streams_parsed", 1)
+					ps := hspec.NewParser(w.Buf.Bytes())
+					_, perr := ps.Next()
+					var g2 *hspec.Value
+					if perr == nil {
+						g2, perr = ps.Next()
+					}
+					want2 := safeDenote(val, nm2)
+					switch {
+					case perr != nil:
+						viol(parseErrClass(perr), fmt.Sprintf("second value of a two-value stream (after %s): reference decoder rejects %s: %v", describe(first), hexClip(w.Buf.Bytes()), perr))
+					case ps.Pos != len(w.Buf.Bytes()):
+						viol("wire:leftover", fmt.Sprintf("two-value stream: %d bytes left over", len(w.Buf.Bytes())-ps.Pos))
+					case want2 != nil:
+						if d, tag := hspec.BisimTag(want2, g2, hspec.CmpOpts{NullEmpty: true, IgnoreMapType: true}); d != "" {
+							viol("wire-mismatch:"+tag, fmt.Sprintf("second value of a two-value stream (first value: %s): %s; intended %s; stream %s", describe(first), d, hspec.ShortString(want2), hexClip(w.Buf.Bytes())))
+						}
+					}
+				}
+			}
 		}
 		// the same Go types under OTHER registered class names (a second name map in the same
 		// process): the class definitions on the wire must carry the names of the map in use
